@@ -63,8 +63,22 @@ pub fn eval(expr: Node) -> Result<i64, Box<dyn error::Error>> {
         Number(i) => Ok(i),
         And(expr1, expr2) => Ok(eval(*expr1)? & eval(*expr2)?),
         Or(expr1, expr2) => Ok(eval(*expr1)? | eval(*expr2)?),
-        LeftShift(expr1, expr2) => Ok(eval(*expr1)? << eval(*expr2)?),
-        RightShift(expr1, expr2) => Ok(eval(*expr1)? >> eval(*expr2)?),
+        LeftShift(expr1, expr2) => {
+            let value = eval(*expr1)?;
+            let count = eval(*expr2)?;
+            if !(0..=63).contains(&count) {
+                return Err("Shift count out of range".into());
+            }
+            Ok(value << count)
+        }
+        RightShift(expr1, expr2) => {
+            let value = eval(*expr1)?;
+            let count = eval(*expr2)?;
+            if !(0..=63).contains(&count) {
+                return Err("Shift count out of range".into());
+            }
+            Ok(value >> count)
+        }
         Add(expr1, expr2) => checked(eval(*expr1)?.checked_add(eval(*expr2)?)),
         Subtract(expr1, expr2) => checked(eval(*expr1)?.checked_sub(eval(*expr2)?)),
         Multiply(expr1, expr2) => checked(eval(*expr1)?.checked_mul(eval(*expr2)?)),
@@ -115,6 +129,8 @@ pub fn eval(expr: Node) -> Result<i64, Box<dyn error::Error>> {
             let result = eval(*sub_expr)?;
             if result < 0 {
                 Ok(0)
+            } else if result > 62 {
+                Err("Integer overflow".into())
             } else {
                 Ok(1 << result)
             }
